@@ -42,6 +42,7 @@ class Result:
         self.returns = set()     # (block, kind)
         self.reached = set()     # blocks
         self.divzero = []        # (block, description)
+        self.panics = []         # blocks that diverge and are reached with every branch on the way decided
         self.states = 0
         self.unknown_branches = 0
 
@@ -72,6 +73,11 @@ class ZeroWorld:
             return 0
         if t[0] == "call" and t[1][1] == "len":
             return 0
+        if t[0] == "call" and t[1][1] == "is_empty":
+            return 1
+        if t[0] == "unop" and t[1] == "Not":
+            v = self.ctor_val(t[2])
+            return None if v is None else int(not v)
         return None
 
     def initial_env(self):
@@ -175,11 +181,11 @@ class ZeroWorld:
         body, bi = self.body, self.bi
         res = Result()
         env0 = self.initial_env()
-        start = (0, tuple(sorted(env0.items(), key=lambda kv: str(kv[0]))), None)
+        start = (0, tuple(sorted(env0.items(), key=lambda kv: str(kv[0]))), None, True)
         seen = {start}
         dq = deque([start])
         while dq:
-            b, envt, ret = dq.popleft()
+            b, envt, ret, certain = dq.popleft()
             res.states += 1
             if res.states > limit:
                 raise RuntimeError("zero-world state explosion")
@@ -212,6 +218,8 @@ class ZeroWorld:
             if k == "return":
                 res.returns.add((b, ret))
                 continue
+            if certain and ((k == "call" and t.get("t") is None) or k in ("unreachable", "abort")):
+                res.panics.append((b, t.get("sp", "")))
             succs = None
             if k == "call":
                 site = bi.by_block.get(b)
@@ -253,6 +261,8 @@ class ZeroWorld:
                     res.unknown_branches += 1
             if succs is None:
                 succs = body.succs(b)
+                if k == "switch" and len(set(succs)) > 1:
+                    certain = False
             # statements evaluated: division by zero as a binop
             for st in body.stmts(b):
                 if st["k"] == "assign" and st["rv"]["k"] == "binop" and st["rv"]["op"] in ("Rem", "Div"):
@@ -262,7 +272,7 @@ class ZeroWorld:
             for tb in succs:
                 if tb is None or body.is_cleanup(tb):
                     continue
-                s2 = (tb, envt2, ret)
+                s2 = (tb, envt2, ret, certain)
                 if s2 not in seen:
                     seen.add(s2)
                     dq.append(s2)
